@@ -796,11 +796,15 @@ class BaseConnector:
             return None
 
         t1 = monotonic()
+        # keepalive_timeout=None: idle connections never expire
+        keepalive_timeout = self._keepalive_timeout
         while conns:
             proto, t0 = conns.popleft()
             # We will we reuse the connection if its connected and
             # the keepalive timeout has not been exceeded
-            if proto.is_connected() and t1 - t0 <= self._keepalive_timeout:
+            if proto.is_connected() and (
+                keepalive_timeout is None or t1 - t0 <= keepalive_timeout
+            ):
                 if not conns:
                     # The very last connection was reclaimed: drop the key
                     del self._conns[key]
